@@ -4,7 +4,7 @@ import os
 
 import vlib
 
-INV = ["NoDivergence", "IncomingBound", "LocalIDs", "AcceptInOrder", "NoStarvedWaiter"]
+INV = ["NoDivergence", "IncomingBound", "LocalIDs", "AcceptInOrder", "NoStarvedWaiter", "BlockedReported"]
 GROUPS = {}
 for persp in ("client", "server"):
     for uni in (False, True):
